@@ -36,6 +36,17 @@ CHECKS = {
         "their dedicated models are C09/C14.",
    technique="TLA+ spec InputBuffer (AnyTilingPartitions) + TLC; S->I replay; I->S trace validation (Trace_InputBuffer, Check=C01)",
    design="4 C01"),
+ "C02": dict(
+   category="model_checking",
+   text="Lattice.tla transcribes insert/connect_node/connect_eos and the position loop; TLC checks for every insertion sequence within bounds under three "
+        "matrices (asymmetric, i16 extremes incl. 32767/-32768, non-square 3x2) that every stored total and the EOS total equal an independent brute-force minimum over "
+        "all BOS paths; every enumerated sequence is replayed on ONE recycled real Lattice object (totals and EOS compared); whole analyses over generated "
+        "dictionaries (random non-square matrices, extreme costs, homographs, overlaps) and the fixture dictionary are trace-validated: each insert must satisfy the "
+        "recurrence over exactly the nodes inserted in this run, node parameters must equal the lexicon source, the chosen path must tile the text with recomputed "
+        "cumulative costs and reach the lattice minimum incl. BOS/EOS connections, mode-C morpheme costs must equal those sums; lattices up to 14 nodes are also brute-forced.",
+   note="Trusted: TLC, JSON bridge, hook H2/H3 placement, the driver's rendering of matrix/lexicon sources. Ties are never compared. Brute force beyond 14 nodes is replaced by the per-insert recurrence (shown equivalent by MC within bounds).",
+   technique="TLA+ spec Lattice (ViterbiInv/EosOptimal vs brute force) + TLC; S->I replay on the real Lattice; I->S trace validation (Trace_Lattice)",
+   design="4 C02"),
 }
 
 NOT_YET = "no check registered yet in this revision (work in progress; see DESIGN.md section 8 build order)"
